@@ -89,8 +89,13 @@ func runExpCase(rc *RuleCtx) {
 							if !ok || b.Op != want {
 								continue
 							}
-							if c, ok := charOf(b.Y); ok {
-								k := types.ExprString(b.X)
+							// `c == 'e'`, written either way round
+							subj, lit := b.X, b.Y
+							if _, ok := charOf(lit); !ok {
+								subj, lit = b.Y, b.X
+							}
+							if c, ok := charOf(lit); ok {
+								k := types.ExprString(subj)
 								if bySubj[k] == nil {
 									bySubj[k] = map[rune]bool{}
 								}
